@@ -3,15 +3,16 @@
 // application goroutines hammering the lock.  Every fake message method checks that the caller
 // owns the lock and touches a plain shared variable (so the race detector sees a missing lock);
 // hooks check that the caller does not own it, then take it.  Prints
-//   ST accesses=<n> unlocked=<n> hooks=<n> hooks_locked=<n> frames=<n> stale_frames=<n>
+//
+//	ST accesses=<n> unlocked=<n> hooks=<n> hooks_locked=<n> frames=<n> stale_frames=<n>
 package main
 
 import (
 	"context"
 	"errors"
 	"fmt"
-	"net"
 	"math/rand"
+	"net"
 	"sync"
 	"sync/atomic"
 	"time"
@@ -26,9 +27,9 @@ type ownMutex struct {
 	owner int64
 }
 
-func (m *ownMutex) Lock()        { m.mu.Lock(); atomic.StoreInt64(&m.owner, goid()) }
-func (m *ownMutex) Unlock()      { atomic.StoreInt64(&m.owner, 0); m.mu.Unlock() }
-func (m *ownMutex) mine() bool   { return atomic.LoadInt64(&m.owner) == goid() }
+func (m *ownMutex) Lock()      { m.mu.Lock(); atomic.StoreInt64(&m.owner, goid()) }
+func (m *ownMutex) Unlock()    { atomic.StoreInt64(&m.owner, 0); m.mu.Unlock() }
+func (m *ownMutex) mine() bool { return atomic.LoadInt64(&m.owner) == goid() }
 
 type stStats struct{ accesses, unlocked, hooks, hooksLocked, frames, staleFrames int64 }
 
@@ -38,8 +39,8 @@ type stNode struct {
 	rmsg *stMsg
 }
 
-func (n *stNode) Connect() (net.Conn, error)                           { return nil, errors.New("not used") }
-func (n *stNode) Descriptor() *descriptor.Node                         { return &descriptor.Node{Name: "STRESS"} }
+func (n *stNode) Connect() (net.Conn, error)                          { return nil, errors.New("not used") }
+func (n *stNode) Descriptor() *descriptor.Node                        { return &descriptor.Node{Name: "STRESS"} }
 func (n *stNode) TransmittedMessages() []canrunner.TransmittedMessage { return nil }
 
 func (n *stNode) ReceivedMessage(id uint32) (canrunner.ReceivedMessage, bool) {
@@ -82,22 +83,22 @@ func (m *stMsg) hook() func(context.Context) error {
 }
 func (m *stMsg) AfterReceiveHook() func(context.Context) error   { m.touch(); return m.hook() }
 func (m *stMsg) BeforeTransmitHook() func(context.Context) error { m.touch(); return m.hook() }
-func (m *stMsg) SetReceiveTime(time.Time)                         { m.touch() }
-func (m *stMsg) SetTransmitTime(time.Time)                        { m.touch() }
-func (m *stMsg) UnmarshalFrame(can.Frame) error                   { m.touch(); return nil }
-func (m *stMsg) MarshalFrame() (can.Frame, error)                 { m.touch(); return can.Frame{}, nil }
-func (m *stMsg) IsCyclicTransmissionEnabled() bool                { m.touch(); return m.flag }
+func (m *stMsg) SetReceiveTime(time.Time)                        { m.touch() }
+func (m *stMsg) SetTransmitTime(time.Time)                       { m.touch() }
+func (m *stMsg) UnmarshalFrame(can.Frame) error                  { m.touch(); return nil }
+func (m *stMsg) MarshalFrame() (can.Frame, error)                { m.touch(); return can.Frame{}, nil }
+func (m *stMsg) IsCyclicTransmissionEnabled() bool               { m.touch(); return m.flag }
 func (m *stMsg) Frame() can.Frame {
 	m.touch()
 	f := can.Frame{ID: m.desc.ID, Length: 8}
 	f.Data[0], f.Data[1], f.Data[2] = byte(m.version), byte(m.version>>8), byte(m.version>>16)
 	return f
 }
-func (m *stMsg) Reset()                              {}
-func (m *stMsg) String() string                      { return "" }
-func (m *stMsg) Descriptor() *descriptor.Message     { return m.desc }
-func (m *stMsg) WakeUpChan() <-chan struct{}         { return m.wake }
-func (m *stMsg) TransmitEventChan() <-chan struct{}  { return m.ev }
+func (m *stMsg) Reset()                             {}
+func (m *stMsg) String() string                     { return "" }
+func (m *stMsg) Descriptor() *descriptor.Message    { return m.desc }
+func (m *stMsg) WakeUpChan() <-chan struct{}        { return m.wake }
+func (m *stMsg) TransmitEventChan() <-chan struct{} { return m.ev }
 
 type stRx struct {
 	ctx context.Context
